@@ -10,7 +10,7 @@ import (
 	"strings"
 )
 
-var ruleL1 = &Rule{
+var ruleL1old = &Rule{
 	ID:    "L1",
 	Floor: 3,
 	Doc: "order-independent fingerprint by construction: in the writer's label fingerprint routine the loop over the labels updates each accumulator only as acc = acc ⊕ g(h) with ⊕ ∈ {+, ^, *} (commutative and associative on uint64), " +
@@ -556,3 +556,5 @@ var ruleA11 = &Rule{
 }
 
 func init() { register(ruleA11) }
+
+var _ = ruleL1old
